@@ -70,7 +70,7 @@ pub enum Class {
 
 pub fn classify_to(a: &Option<AttrVal>) -> Class {
     let s = match a {
-        None | Some(AttrVal::Bare) | Some(AttrVal::Unquoted(_)) => return Class::Invalid, // missing / valueless / unquoted (no value recorded)
+        None | Some(AttrVal::Bare) | Some(AttrVal::Unquoted(_)) | Some(AttrVal::Mismatched(_)) => return Class::Invalid, // missing / valueless / unquoted / unterminated (no value recorded)
         Some(AttrVal::Val(s)) => s.as_str(),
     };
     if let Some(w) = parse_to_canonical(s) {
@@ -287,6 +287,7 @@ pub fn generate(seed: u64) -> C05Scn {
     tos.push(None);
     tos.push(Some(AttrVal::Bare));
     tos.push(Some(AttrVal::Unquoted(reftime::format_wall(walls[0]).replace(' ', "T"))));
+    tos.push(Some(AttrVal::Mismatched(reftime::format_wall(walls[0]))));
     let names = [None];
     let p = GenParams {
         max_elems: 9,
@@ -306,6 +307,20 @@ pub fn generate(seed: u64) -> C05Scn {
     };
     let mut doc = doc::generate(&mut rng, &p);
     crate::c19::avoid_known_c01_panic(&mut doc);
+    // now and then an element carries `to` twice: a malformed one first (that is the element's
+    // `to`: it must never become ready) and a perfectly valid, long expired one after it
+    let dup_wall = reftime::format_wall(walls[0] - 86_400 * 30);
+    for e in doc.elems_mut() {
+        if e.kind == Kind::Tl && e.inline.is_none() && rng.chance(1, 12) {
+            e.to = Some(match rng.below(3) {
+                0 => AttrVal::Bare,
+                1 => AttrVal::Val("soon".into()),
+                _ => AttrVal::Val("2024/01/01 00:00:00".into()),
+            });
+            e.to_dup = Some(AttrVal::Val(dup_wall.clone()));
+            e.style &= !0x18; // keep the written order: the malformed one comes first
+        }
+    }
     // quotes: a `to` value never contains quotes, fine for both quote styles
 
     // --- history -----------------------------------------------------------------
@@ -415,7 +430,7 @@ fn run_exec(scn: &C05Scn, r: &Run, text: &str) -> (Fs, Exec) {
             decoy.clone()
         }
     };
-    (fs, Exec { argv, stdin, env: r.env.clone(), clock, io: r.io.clone(), stdout_tty: false })
+    (fs, Exec { argv, stdin, env: r.env.clone(), clock, io: r.io.clone(), stdout_tty: false, sizeless: vec![] })
 }
 
 /// (parent id, element) pairs in document order
